@@ -416,7 +416,8 @@ B("C17", TF, "        y = jax.nn.sigmoid(x)", "        y = 1.0 / (1.0 + jnp.exp(
 B("C17", TF, "        return z + jnp.log(-jnp.expm1(-z))", "        return z + jnp.log(-jnp.expm1(-jnp.minimum(z, 20.0)))", "R-C17-saturation")
 P("C17", TF, "        return jax.nn.softplus(x) + self.lower", "        return jnp.logaddexp(x, 0.0) + self.lower")
 P("C17", TF, "        y = jax.nn.sigmoid(x)", "        y = 1.0 / (1.0 + jnp.exp(-x))")
-P("C17", TF, "        return z + jnp.log(-jnp.expm1(-z))", "        return jnp.log(jnp.exp(z) - 1.0)")
+# (`log(exp(z) - 1)` was listed here as preserving until round 7: it is the same function over the reals but overflows for z > 709,
+#  where the inverse is representable -- see R-C17-overflow and the breaking variant further down)
 B("C17", TF, "        return z + jnp.log(-jnp.expm1(-z))", "        return z + jnp.log(jnp.expm1(-z))", "R-C17-inverse")
 
 # F21 (repaired): the checkpoint pad of an input must have that input's number of columns
@@ -557,3 +558,16 @@ B("C19", BASE, "                in_use = self.base.nodes.loc[rows, users[col]].a
 P("C19", BASE, "                unshared_cols = [col for col in channel_cols if not users[col]]", "                unshared_cols = [col for col in channel_cols if len(users[col]) == 0]")
 P("C19", BASE, "                in_use = self.base.nodes.loc[rows, users[col]].any(axis=1).to_numpy()\n                self.base.nodes.loc[rows[~in_use], col] = float(\"nan\")", "                unused = ~self.base.nodes.loc[rows, users[col]].any(axis=1).to_numpy()\n                self.base.nodes.loc[rows[unused], col] = float(\"nan\")")
 B("C19", BASE, "        self.base.nodes.loc[self._nodes_in_view, name] = True", "        self.base.nodes[name] = True", "R-C19-confine")
+# log of an exponential that can overflow
+B("C17", TF, "        return z + jnp.log(-jnp.expm1(-z))", "        return jnp.log(jnp.expm1(z))", "R-C17-overflow")
+B("C17", TF, "        return z + jnp.log(-jnp.expm1(-z))", "        return jnp.log(jnp.exp(z) - 1.0)", "R-C17-overflow")
+P("C17", TF, "        return z + jnp.log(-jnp.expm1(-z))", "        return z + jnp.log1p(-jnp.exp(-z))")
+# every import reads the file; optional conventions are off by default
+B("C16", SWC, "    max_branch_len: Optional[float] = None,\n    min_radius", "    max_branch_len: Optional[float] = 2_000.0,\n    min_radius", "R-C16-switches")
+B("C16", SWC, "def swc_to_jaxley(", "from functools import lru_cache\n\n\n@lru_cache(maxsize=None)\ndef swc_to_jaxley(", "R-C16-fresh")
+# stimulus rows and index entries are paired in the order given; one row of values per index
+for _p, _r in (("C08", "R-C08-charge"), ("C02", "R-C02-stim")):
+    B(_p, BASE, "        zero_vec = jnp.zeros_like(voltages)\n", "        zero_vec = jnp.zeros_like(voltages)\n        i_inds = jnp.asarray(i_inds)\n        i_inds = i_inds[jnp.argsort(i_inds)]\n", _r)
+B("C08", BASE, "        values = values if is_multiple else jnp.repeat(values, num_inserted, axis=0)", "        values = values if is_multiple else jnp.repeat(values, batch_size, axis=0)", "R-C08-rows")
+B("C08", BASE, "        is_multiple = num_inserted == batch_size\n        values", "        is_multiple = num_inserted <= batch_size\n        values", "R-C08-rows")
+B("C11", BASE, "            self._scope = scope\n            self._current_view = current_view", "            self._current_view = current_view", "R-C11-refresh")
